@@ -463,9 +463,9 @@ End Interp.
    about, yet the file resolves identically without import 1. *)
 Definition pX : name := [112; 46; 88]%N.
 Definition ex_W : world :=
-  mkW [mkV 0 [(1, false); (2, false)] [] []; mkV 1 [(3, true)] [] []; mkV 2 [(3, true)] [] []; mkV 3 [] [] []]%N
+  mkW [mkV 0 [(1, false); (2, false)] [] [] []; mkV 1 [(3, true)] [] [] []; mkV 2 [(3, true)] [] [] []; mkV 3 [] [] [] []]%N
       [(0, mkFile [] []); (1, mkFile [] []); (2, mkFile [] []); (3, mkFile [112]%N [(pX, KMessage)])]%N.
-Definition ex_f : vfile := (mkV 0 [(1, false); (2, false)] [] [])%N.
+Definition ex_f : vfile := (mkV 0 [(1, false); (2, false)] [] [] [])%N.
 Definition ex_refs : list prog := [ref_prog [] (RType [] pX)].
 
 Lemma outcome_dec (a b : gres * list (qmode * name * vres)) : {a = b} + {a <> b}.
